@@ -11,7 +11,7 @@ CHECKS = {
 CHECKS["C20"] = {
     "engine": "E-BFS",
     "technique": "explicit-state BFS over writer call sequences on the real VTKWriter, independent VTK parser as oracle",
-    "text": "All sequences of VTKWriter calls (17-action alphabet: nodal/cell field adds of every field type and several data types, add_sphere, add_contact_edges, write) up to depth 4 (quick) / 5 (thorough) on 6-8 meshes (orders 1-4 and node-renumbered order 2/3 meshes), de-duplicated on a canonical state; every written file is parsed by an independent strict legacy-VTK parser and compared with a model of what was supplied (counts, index ranges, one record per entity, geometric cell identity, exact value round trip, byte-identical consecutive writes). Reaches combinations and call orders (spheres + rewrite, cell data + contact edges, renumbered high-order meshes) that the 6 existing tests never exercise; found and fixed four defects.",
+    "text": "All sequences of VTKWriter calls (20-action alphabet: nodal/cell field adds of every field type and several data types, add_sphere, add_contact_edges, write) up to depth 4 (quick) / 5 (thorough) on 6-8 meshes (orders 1-4 and node-renumbered order 2/3 meshes), de-duplicated on a canonical state; every written file is parsed by an independent strict legacy-VTK parser and compared with a model of what was supplied (counts, index ranges, one record per entity, geometric cell identity, exact value round trip, byte-identical consecutive writes). Reaches combinations and call orders (spheres + rewrite, cell data + contact edges, renumbered high-order meshes) that the 6 existing tests never exercise; found and fixed four defects.",
     "note": "parser and model are harness python; straight-sided small meshes; depth bound; canon merges histories with equal model state, capped write count and equal model state at last write",
 }
 CHECKS["C01"] = {
@@ -61,5 +61,23 @@ CHECKS["C19"] = {
     "technique": "exhaustive product for warm-start increments and scaled solves; BFS over load-step sequences through the four real drivers",
     "text": "warm_start_increment for every basis direction x 3 magnitudes x 2 signs of the parameter change in the bc and design slots x exact/perturbed point x exact/stale/identity preconditioner against a dense numpy predictor (residual within scipy cg's stated rtol); ScaledObjective solves vs unscaled reference over stiffness-diagonal spreads up to 1e6; all load-step sequences (12 actions: 3 parameter changes x warm start on/off x preconditioner refresh on/off) to depth 4 (nonlinear_equation_solve) / 3 (TrustRegionSPG.solve, augmented_lagrange_solve, bound_constrained_solve): afterwards objective.p is the requested tuple and a True flag / normal return implies a small reference gradient / KKT residual under the requested parameters. 58k sequences / 211k load steps quick.",
     "note": SHIM + "energies quadratic(+quartic) in x, affine in the bc parameter; constraints in the AL drivers are inactive over the reachable set",
+}
+CHECKS["C06"] = {
+    "engine": "E-PROD",
+    "technique": "exhaustive product of dimension x spectrum x eigenbasis x gradient class x radius x preconditioner x mode x caps on the real subproblem solvers vs an independent More-Sorensen reference",
+    "text": "n in {1,2,3,5,8} (thorough +13,21,40) x 8 spectra (repeated, zero, negative, tiny, ill-conditioned) x 4 eigenbases x 5 gradient classes (incl. orthogonal to the lowest eigenspace) x 7-13 radius decades x 5 preconditioners x 2 inner-product modes x 5 cap/tolerance settings on solve_trust_region_minimization, trust_region_cg, dogleg_step, treigen.solve and ModelProblem.solve: in the ball in the configured norm, beats the Cauchy step, boundary/interior claims, dogleg on its path, global optimality against numpy eigh + secular bisection with analytic hard case. 449k evaluations quick / 1.3M thorough. Found and fixed three treigen defects; the preconditioned-recurrence norm drift is an open finding (thorough tier).",
+    "note": SHIM + "synthetic dense operators; executions in which treigen's Newton loop does not terminate (near-hard case) are counted as no-verdict under a deterministic iteration budget, so exhaustive=false; norm claims of the preconditioned recurrence are not judged beyond n CG iterations",
+}
+CHECKS["C15"] = {
+    "engine": "E-BFS",
+    "technique": "explicit-state BFS over time-step sequences on the real Newmark predict/minimise/correct, invariants vs numpy reference on every transition",
+    "text": "48 compiled configurations (2 meshes x order 1-2 x 2 constant sets x 3 (gamma,beta) x LinearElastic/Neohookean) x 6 roots (free/clamped x rigid/sine/seeded fields, consistent initial acceleration from the reference) x all dt sequences over {1e-3,0.1,0.75,10} of length <=3 (quick) / <=5 (thorough), de-duplicated on rounded (U,V,A): discrete momentum balance, Newmark update formulas, mass sum = rho*area, and for trapezoidal + linear elastic energy conservation and exact rigid translation, plus a one-step dense linear reference. 22k transitions quick / 298k thorough.",
+    "note": "the step's minimisation is a dense damped Newton in the harness on jax.grad/hessian of the library's algorithmic energy (so the property is about Mechanics.py, not the solver); no external loads, cartesian mode",
+}
+CHECKS["C16"] = {
+    "engine": "E-PROD",
+    "technique": "exhaustive product of segment x orientation x (t,d) lattice / overlap class x gap x normal x rigid motion / obstacle x field x depth against closed-form references, three execution modes",
+    "text": "closest point / signed distance over 3 lengths x 8 orientations x 12x6 (t,d) lattice incl. +-1e-9 around the ends; mortar integrals over 12 overlap classes x length ratios x relative angles x gaps x 2 common normals x 18 rigid motions x 6 integrands plus an orientation sweep of the coincident-end classes; nodal area / gap assembly; level-set constraints and penalty energy for plane/corner/circle obstacles x fields x depths. 48k cases / 627k real-code calls quick. Found and fixed the lost overlap at coincident segment ends.",
+    "note": "numpy extended-precision reference; sign exactly on the line not judged; non-parallel mortar pairs judged only for invariance/sign/zero as the statement says",
 }
 NOT_APPLICABLE_REASON = {}
